@@ -616,3 +616,57 @@ pub fn batch_run<C: Cv>(job: &Value, record: bool) -> (Vec<Value>, Value) {
     }
     (events, json!({"id": job["id"], "curve": C::NAME, "individual": individual, "batch": bres, "bad": bad, "n": ms.len()}))
 }
+
+
+// ------------------------------------------------------------------------------------------------
+// C18 fixtures
+// ------------------------------------------------------------------------------------------------
+
+/// Record a fixture: run the program (prover and verifier) and keep everything a later revision needs to re-verify it.
+pub fn make_fixture<C: Cv>(prog: &Program) -> Value {
+    use std::cell::RefCell;
+    use std::collections::HashMap;
+    use std::rc::Rc;
+    let consts = Rc::new(RefCell::new(HashMap::new()));
+    let commits = Rc::new(RefCell::new(vec![]));
+    let po = run_prover::<C>(&prog.p, prog.seed, None, consts.clone(), commits.clone(), false);
+    let proof = match &po.proof {
+        Some(p) => p.to_bytes().unwrap(),
+        None => return json!({"id": prog.id, "curve": C::NAME, "error": po.res}),
+    };
+    let r = run_program::<C>(prog, false);
+    // the commitments the verifier of this fixture is handed: those of its own statement, under the prover's bases
+    let ppc = make_pc::<C>(&prog.p.pc);
+    let cm: Vec<String> = prog.vside().ops.iter().filter_map(|o| match o {
+        Op::Commit { v, vb } => Some(hex(&ser_c(&ppc.commit(v.f::<Fr<C>>(), vb.f::<Fr<C>>())))),
+        _ => None,
+    }).collect();
+    let _ = &commits;
+    let cs: Vec<(usize, String)> = consts.borrow().iter().map(|(k, v)| (*k, hex(&ser_c(v)))).collect();
+    json!({"id": prog.id, "curve": C::NAME, "program": serde_json::to_value(prog).unwrap(), "proof": hex(&proof), "commitments": cm,
+           "consts": cs, "pres": r.pres, "vres": r.vres, "len": proof.len(),
+           "ptlen": ser_c(&C::G::generator()).len(), "sclen": ser_c(&Fr::<C>::zero()).len()})
+}
+
+/// Verify a recorded fixture with the current code: the recorded statement (or a recorded wrong statement) against the recorded proof.
+pub fn check_fixture<C: Cv>(fx: &Value) -> Value {
+    use std::collections::HashMap;
+    let prog: Program = serde_json::from_value(fx["program"].clone()).expect("fixture program");
+    let proof = unhex(fx["proof"].as_str().unwrap());
+    let commits: Vec<C::G> = fx["commitments"].as_array().unwrap().iter()
+        .map(|h| C::G::deserialize_with_mode(&unhex(h.as_str().unwrap())[..], Compress::Yes, Validate::No).expect("fixture commitment")).collect();
+    let mut consts: HashMap<usize, Fr<C>> = HashMap::new();
+    for kv in fx["consts"].as_array().unwrap() {
+        consts.insert(kv[0].as_u64().unwrap() as usize, Fr::<C>::deserialize_compressed(&unhex(kv[1].as_str().unwrap())[..]).expect("fixture constant"));
+    }
+    let side = prog.vside().clone();
+    // the verifier takes as many commitments as its own statement commits; hand it the recorded ones in order
+    let (dec, vo) = verify_only::<C>(&side, &proof, commits, consts, false);
+    // encoding layout: the recorded bytes decode and re-encode to themselves, with the recorded token sizes
+    let reencode = match R1CSProof::<C::G>::from_bytes(&proof) {
+        Ok(p) => p.to_bytes().map(|b| b == proof).unwrap_or(false),
+        Err(_) => false,
+    };
+    let sizes_ok = fx["ptlen"].as_u64() == Some(ser_c(&C::G::generator()).len() as u64) && fx["sclen"].as_u64() == Some(ser_c(&Fr::<C>::zero()).len() as u64);
+    json!({"id": fx["id"], "curve": C::NAME, "decode": dec, "vres": vo.res, "expect": fx["vres"], "reencode": reencode, "sizes_ok": sizes_ok})
+}
